@@ -296,6 +296,45 @@ func Run(c *engine.Ctx) {
 	near := []string{"n", "N", "n "}
 	shapes("near-ids-n3-e2", near, near, types1, append(append([]string{}, near...), " n"), 2)
 
+	// node kinds: every assignment of package / file to the nodes of a chain, a fan and a diamond (reachability does
+	// not depend on what a node describes)
+	{
+		c.Group("node-kinds")
+		ids := []string{"a", "b", "c", "d"}
+		shapesK := map[string][]gen.EdgeSpec{
+			"chain":   {{From: "a", Type: sbom.Edge_contains, To: []string{"b"}}, {From: "b", Type: sbom.Edge_dependsOn, To: []string{"c"}}, {From: "c", Type: sbom.Edge_other, To: []string{"d"}}},
+			"fan":     {{From: "a", Type: sbom.Edge_contains, To: []string{"b", "c"}}, {From: "b", Type: sbom.Edge_contains, To: []string{"d"}}},
+			"diamond": {{From: "a", Type: sbom.Edge_dependsOn, To: []string{"b", "c"}}, {From: "b", Type: sbom.Edge_contains, To: []string{"d"}}, {From: "c", Type: sbom.Edge_contains, To: []string{"d", "a"}}},
+		}
+		c.Bound("node-kinds", "chain, fan and diamond on 4 nodes x all 16 assignments of package / file kinds x roots {none, a} x every start")
+		for _, sn := range []string{"chain", "diamond", "fan"} {
+			for mask := 0; mask < 16; mask++ {
+				for _, roots := range [][]string{nil, {"a"}} {
+					for _, st := range ids {
+						spec := gen.ListSpec{Nodes: ids, Edges: shapesK[sn], Roots: roots}
+						sn, mask, st := sn, mask, st
+						c.Case(func() any { return map[string]any{"shape": sn, "file-kind-mask": mask, "roots": roots, "start": st} }, func(t *engine.T) *engine.Violation {
+							nl := spec.Build()
+							for i, n := range nl.Nodes {
+								if mask&(1<<i) != 0 {
+									n.Type = sbom.Node_FILE
+								}
+							}
+							obs, v := runAll(t, nl, st, 5)
+							if v != nil {
+								return v
+							}
+							t.Observe(obs)
+							t.State(fmt.Sprint("kinds", sn, mask, roots, st))
+							t.Outcome("kinds " + outcomeClass(obs))
+							return nil
+						})
+					}
+				}
+			}
+		}
+	}
+
 	// target lists in every order: dangling targets (names of nodes the list does not hold) before, between and after
 	// existing ones, in one edge record and in two
 	{
